@@ -323,6 +323,17 @@ func c19Rate(c *Ctx) {
 		})
 		eachInstr(f, func(i ssa.Instruction) {
 			switch x := i.(type) {
+			case *ssa.Call:
+				// slices.Contains(<package-level literal table>, unit)
+				if strings.HasPrefix(callName(&x.Call), "slices.Contains") && len(x.Call.Args) == 2 {
+					if lit := globalLiteral(c, loadedGlobal(x.Call.Args[0])); lit != nil {
+						for _, e := range lit.Elems {
+							if e != nil && e.Kind() == constant.String {
+								units[constant.StringVal(e)] = true
+							}
+						}
+					}
+				}
 			case *ssa.Store:
 				if s, ok := constString(x.Val); ok && s == "1s" {
 					has1s = true
@@ -478,6 +489,9 @@ func c19Verbatim(c *Ctx) {
 	if fn == nil {
 		return
 	}
+	old := inlineAware
+	inlineAware = true
+	defer func() { inlineAware = old }()
 	var mu *ssa.MapUpdate
 	eachInstr(fn, func(i ssa.Instruction) {
 		if m, ok := i.(*ssa.MapUpdate); ok {
@@ -515,31 +529,44 @@ func c19Verbatim(c *Ctx) {
 			ok, why = false, fmt.Sprintf("key built from parts %v and value from parts %v; want [0 1] and [2 3]", ki, vi)
 		}
 		if ok {
-			// len(parts) != 4 → error
+			// len(parts) != 4 → error: the map update is unreachable from the "not four parts" outcome
+			// (path form, so that it also holds when parsing lives in a single-site helper)
 			okLen := false
-			for _, f := range factsAt(mu.Block()) {
-				if bo, isBo := f.Cond.(*ssa.BinOp); isBo {
-					if four, isF := constInt(bo.Y); isF && four == 4 && (bo.Op == token.NEQ && !f.Val || bo.Op == token.EQL && f.Val) {
-						okLen = true
-					}
+			eachInstrI(fn, func(i ssa.Instruction) {
+				bo, isBo := i.(*ssa.BinOp)
+				if !isBo || (bo.Op != token.NEQ && bo.Op != token.EQL) {
+					return
 				}
-			}
+				if four, isF := constInt(bo.Y); !isF || four != 4 {
+					return
+				}
+				if call, isCall := bo.X.(*ssa.Call); !isCall || callName(&call.Call) != "builtin:len" {
+					return
+				}
+				ifi := trueImpliesIf(bo)
+				if ifi == nil {
+					return
+				}
+				bad := ifi.Block().Succs[0]
+				if bo.Op == token.EQL {
+					bad = ifi.Block().Succs[1]
+				}
+				if !exploreBlock(bad, nil)[ssa.Instruction(mu)] {
+					okLen = true
+				}
+			})
 			nSplit := 0
-			eachInstr(fn, func(i ssa.Instruction) {
+			eachInstrI(fn, func(i ssa.Instruction) {
 				if call, isCall := i.(*ssa.Call); isCall && callName(&call.Call) == "net.SplitHostPort" {
-					if ifi := errNotNilIf(call, call); ifi != nil && edgeDominates(ifi.Block(), 1, mu.Block()) {
+					if ifi := errNotNilIfI(call); ifi != nil && !exploreBlock(ifi.Block().Succs[0], nil)[ssa.Instruction(mu)] && exploreBlock(ifi.Block().Succs[1], nil)[ssa.Instruction(mu)] {
 						nSplit++
 					}
 				}
-			})
-			// or through a predicate helper: `if !isHostPort(addr) { return error }`
-			eachInstr(fn, func(i ssa.Instruction) {
-				call, isCall := i.(*ssa.Call)
-				if !isCall || !isHostPortPredicate(call.Call.StaticCallee()) {
-					return
-				}
-				for _, f := range factsAt(mu.Block()) {
-					if f.Cond == ssa.Value(call) && f.Val {
+				// or through a predicate helper: `if !isHostPort(addr) { return error }`
+				if call, isCall := i.(*ssa.Call); isCall && isHostPortPredicate(call.Call.StaticCallee()) {
+					if ifi := trueImpliesIf(call); ifi != nil && !exploreBlock(ifi.Block().Succs[1], nil)[ssa.Instruction(mu)] {
+						nSplit++
+					} else if ifi := falseImpliesIf(call); ifi != nil && !exploreBlock(ifi.Block().Succs[1], nil)[ssa.Instruction(mu)] {
 						nSplit++
 					}
 				}
@@ -787,7 +814,7 @@ func c19Plumbing(c *Ctx) {
 	// lazy and format select the targeter
 	fn := c.P.Func("", "attack")
 	okLazy, okFmt := false, false
-	eachInstr(fn, func(i ssa.Instruction) {
+	visit := func(i ssa.Instruction) {
 		if ifi, ok := i.(*ssa.If); ok {
 			if f, isOpt := optsFieldOf(ifi.Cond); isOpt && f == "lazy" {
 				okLazy = true
@@ -798,11 +825,17 @@ func c19Plumbing(c *Ctx) {
 				okFmt = true
 			}
 		}
-	})
+	}
+	// the selection may have been moved into a single-site helper (newTargeter(opts, …))
+	withInline(func() { eachInstrI(fn, visit) }, fn)
 	c.Check(okLazy && okFmt && fp.flagField["lazy"] == "lazy" && fp.flagField["format"] == "format", "flag-plumbing:lazy,format", "-lazy and -format select eager/lazy reading and the targets format", "both consulted in attack()", "lazy/format are not consulted", c.fnAt(fn))
 }
 
 func c19Resolver(c *Ctx) {
+	withInline(func() { c19ResolverIn(c) }, c.P.Func("internal/resolver", "normalizeAddrs"))
+}
+
+func c19ResolverIn(c *Ctx) {
 	const rule = "resolver addresses: a missing port defaults to 53; host:port, the 16-bit port and the IP are validated and any failure is returned; the normalised address is what is stored"
 	fn := c.P.Func("internal/resolver", "normalizeAddrs")
 	key := "resolver-normalise:internal/resolver.normalizeAddrs"
@@ -814,7 +847,7 @@ func c19Resolver(c *Ctx) {
 	ok := true
 	why := ""
 	has53 := false
-	eachInstr(fn, func(i ssa.Instruction) {
+	eachInstrI(fn, func(i ssa.Instruction) {
 		if bo, isBo := i.(*ssa.BinOp); isBo && bo.Op == token.ADD {
 			if s, isS := constString(bo.Y); isS && s == ":53" {
 				has53 = true
@@ -847,8 +880,8 @@ func c19Resolver(c *Ctx) {
 		ok, why = false, "the default DNS port 53 is not applied"
 	}
 	for _, n := range []string{"net.SplitHostPort", "strconv.ParseUint"} {
-		cs := callsNamed(fn, n)
-		if len(cs) != 1 || errNotNilIf(cs[0].(*ssa.Call), cs[0]) == nil {
+		cs := callsNamedI(fn, n)
+		if len(cs) != 1 || errNotNilIfI(cs[0].(*ssa.Call)) == nil {
 			ok, why = false, n+" validation missing or its error ignored"
 		} else if n == "strconv.ParseUint" {
 			if bits, isB := constInt(cs[0].(*ssa.Call).Call.Args[2]); !isB || bits != 16 {
@@ -856,7 +889,7 @@ func c19Resolver(c *Ctx) {
 			}
 		}
 	}
-	ips := callsNamed(fn, "net.ParseIP")
+	ips := callsNamedI(fn, "net.ParseIP")
 	if len(ips) != 1 {
 		ok, why = false, "the host is not validated as an IP address"
 	}
